@@ -20,7 +20,21 @@ let rt_eval (fn : string) (args : string list) : string =
     | Err -> "err" | Panic -> "panic" | OutOfFuel -> "outoffuel")
   | _ -> raise Not_found
 
-let evaluators : (string -> string list -> string) list ref = ref [ rt_eval ]
+let ts_out (o : ts outcome) : string =
+  match o with
+  | Ok r -> "ok " ^ hex_of_z r.secs ^ " " ^ hex_of_z r.nanos
+  | Err -> "err" | Panic -> "panic" | OutOfFuel -> "outoffuel"
+
+let time_eval (fn : string) (args : string list) : string =
+  match fn, args with
+  | "TADD", [s; n; ds; dn] ->
+    ts_out (tsAdd { secs = z_of_hex s; nanos = z_of_hex n } { secs = z_of_hex ds; nanos = z_of_hex dn })
+  | "TADDSTD", [s; n; d] -> ts_out (tsAddStd { secs = z_of_hex s; nanos = z_of_hex n } (z_of_hex d))
+  | "TCMP", [s1; n1; s2; n2] ->
+    hex_of_z (tsCompare { secs = z_of_hex s1; nanos = z_of_hex n1 } { secs = z_of_hex s2; nanos = z_of_hex n2 })
+  | _ -> raise Not_found
+
+let evaluators : (string -> string list -> string) list ref = ref [ rt_eval; time_eval ]
 
 let eval fn args =
   let rec go = function
